@@ -6,7 +6,7 @@ from .c06 import TRUSTED
 
 def run(v, tier, seed, replay=None):
     meta, _ = common.translate()
-    ok, failed, info = coqrun.prove(v, 'C14', ['Inst/SkelEq.v', 'Inst/FileEq.v'])
+    ok, failed, info = coqrun.prove(v, 'C14', ['Inst/SkelEq.v', 'Inst/FileEq.v', 'Inst/DefEq.v'])
     mexe = common.build_model_driver()
     plain, sched = sessrun.harnesses()
     rng = random.Random(seed)
@@ -53,6 +53,6 @@ def run(v, tier, seed, replay=None):
         'evaluations': len(sess) * len(variants), 'distinct_nontrivial': len(sess),
         'rule': 'write sessions over classes with padding, unions and reserved members (serial events, AppText, ...) at several levels / container sizes: each is run alone, again in the same process after other sessions, on allocations pre-filled with 0x00 / 0xff / 0xa5 (ASan malloc_fill_byte), and under seeded schedule perturbation; every file must be byte-identical to the extracted model. Non-trivial = distinct session.',
         'variants': [n for n, _ in variants], 'differences': nbad, 'samples': ['FS 0 ' + s[:100] for s in sess[:3]],
-        'theorems': ['C14_schedule_independent', 'C14_payload_config_independent', 'C14_stateless_write_path'],
+        'theorems': ['C14_schedule_independent', 'C14_payload_config_independent', 'C14_stateless_write_path', 'C14_only_determined_bytes', 'C14_fresh_encodes_real_bytes'],
     })
     return 'proof'
